@@ -259,7 +259,7 @@ Lemma get_pipeline_path_relative e name parent :
   is_abs (name ++ ".yaml") = false ->
   get_pipeline_path e name parent =
   match find_first (e_is_file e) (name ++ ".yaml") (search_locations e parent) with
-  | Some p => Ok (norm_abs p)
+  | Some p => Ok (resolve (e_cwd e) p)
   | None => Err PNF (not_found_msg (name ++ ".yaml") (search_locations e parent))
   end.
 Proof. unfold get_pipeline_path. intros ->. reflexivity. Qed.
@@ -270,7 +270,7 @@ Theorem first_existing e name parent :
   match get_pipeline_path e name parent with
   | Ok p => exists pre d post,
         documented_order e parent = (pre ++ d :: post)%list /\
-        p = norm_abs (joinpath d fname) /\
+        p = resolve (e_cwd e) (joinpath d fname) /\
         e_is_file e (joinpath d fname) = true /\
         Forall (fun d' => e_is_file e (joinpath d' fname) = false) pre
   | Err n m => n = PNF /\ m = not_found_msg fname (search_locations e parent) /\
@@ -304,7 +304,7 @@ Theorem absolute_only e name parent :
   get_pipeline_path e name parent =
   if e_is_file e (name ++ ".yaml") then Ok (norm_abs (name ++ ".yaml"))
   else Err PNF (abs_missing_msg (name ++ ".yaml")).
-Proof. unfold get_pipeline_path. intros ->. reflexivity. Qed.
+Proof. unfold get_pipeline_path, resolve. intros ->. reflexivity. Qed.
 
 Theorem absolute_nowhere_else e e' name parent parent' :
   is_abs (name ++ ".yaml") = true ->
@@ -672,11 +672,9 @@ Theorem run_pipeline_inv fuel w : forall st l pd n p,
 Proof.
   induction fuel as [|f IH]; intros st l pd n p Hi; cbn; [exact Hi|].
   destruct (negb (name_ok n)); [exact Hi|].
-  set (sys1 := match pd with
-               | Some d => if d =? "" then s_sys st else add_sys_path (w_env w) (s_sys st) (PStr d)
-               | None => s_sys st end).
+  set (sys1 := pydir_sys (w_env w) (s_sys st) pd).
   assert (Hi1 : st_inv (w_env w) {| s_sys := sys1; s_cache := s_cache st |}).
-  { destruct Hi as [Hs Hc]. split; [|exact Hc]. cbn. subst sys1.
+  { destruct Hi as [Hs Hc]. split; [|exact Hc]. cbn. subst sys1. unfold pydir_sys.
     destruct pd as [d|]; [destruct (d =? "")|]; auto using add_sys_path_inv. }
   destruct (loader_kind (effective_loader l)) as [k|]; [|exact Hi1].
   destruct (get_pipeline _ _ _ _ _ _) as [[st2 d]| |] eqn:Eg; try exact Hi1.
